@@ -23,6 +23,10 @@ class Unmodelled(Exception):
     pass
 
 
+class JumpWithSemi(tuple):
+    _semi = True
+
+
 def is_tree(x):
     return hasattr(x, "data") and hasattr(x, "children")
 
@@ -244,14 +248,28 @@ class Elab:
             return ("decl", spelling, t, name, e)
         raise Unmodelled("declaration shape")
 
+    @staticmethod
+    def drop_jump_semicolons(stmts):
+        """`JUMP(x)` carries no semicolon of its own in the grammar: the printer's `JUMP(x);` stands for the jump and
+        the empty statement after it."""
+        out = []
+        for s in stmts:
+            if s == ("raw", ";") and out and out[-1][0] == "jump" and not getattr(out[-1], "_semi", False):
+                out[-1] = JumpWithSemi(out[-1])
+                continue
+            out.append(s)
+        if any(s[0] == "jump" and not getattr(s, "_semi", False) for s in out):
+            raise Unmodelled("JUMP without a following semicolon")
+        return [tuple(s) for s in out]
+
     def block(self, n):
         """a statement used as a body: list of statements"""
         if is_tree(n) and n.data == "block_item_list":
             out = []
             for it in self.flatten_items(n):
                 out += self.stmt(it)
-            return out
-        return self.stmt(n)
+            return self.drop_jump_semicolons(out)
+        return self.drop_jump_semicolons(self.stmt(n))
 
     def lhs(self, n):
         e = self.expr(n)
@@ -310,7 +328,13 @@ class Elab:
             c = self.expr_or_load(ch[1])
             t = self.block(ch[2])
             e = self.block(ch[4]) if len(ch) > 3 else None
-            return [("if", c, t, e)]
+            bare = []
+            # a body written without braces (`if (c) x = 1;`) is a bare statement node, not a block_item
+            if is_tree(ch[2]) and ch[2].data not in ("block_item", "block_item_list") and len(t) == 1:
+                bare.append("then")
+            if e is not None and is_tree(ch[4]) and ch[4].data not in ("block_item", "block_item_list") and len(e) == 1:
+                bare.append("else")
+            return [("if", c, t, e, tuple(bare))] if bare else [("if", c, t, e)]
         if d == "iteration_stmt":
             if tok(ch[0]) != "for" or len(ch) != 5:
                 raise Unmodelled("loop form")
@@ -321,8 +345,6 @@ class Elab:
             z = self.expr(init.children[2])
             if v[0] != "var" or tok(init.children[1]) != "=" or z[0] != "lit" or z[2] != 0 or z[1] != "0":
                 raise Unmodelled("loop initialisation")
-            if v[2] != (False, 32):
-                raise Unmodelled("loop variable with a declared type")
             if not (is_tree(cond) and cond.data == "relational_expr" and tok(cond.children[1]) == "<"):
                 raise Unmodelled("loop condition form")
             cv = self.expr(cond.children[0])
@@ -331,6 +353,8 @@ class Elab:
             bound = self.expr(cond.children[2])
             if not (is_tree(step) and step.data == "postfix_expr" and tok(step.children[1]) == "++" and self.expr(step.children[0]) == v):
                 raise Unmodelled("loop step form")
+            if v[2] != (False, 32):
+                return [("for", v[1], bound, self.block(body), None, 0, v[2])]
             return [("for", v[1], bound, self.block(body))]
         if d in ("sub_routine", "postfix_expr", "gcc_extended_expr", "imm", "reg", "identifier", "number", "new_reg", "macro_expr"):
             if d == "sub_routine":
@@ -348,4 +372,4 @@ class Elab:
             for it in self.flatten_items(c):
                 out += self.stmt(it)
         # a behaviour is one compound statement: `{ ... }` gives one block_item_list
-        return out
+        return self.drop_jump_semicolons(out)
